@@ -22,7 +22,9 @@ Import ListNotations.
 From EV Require Import Model.MpoHam.
 Open Scope Z_scope."""
 
-TOL = 1e-9
+TOL = 1e-9            # (legacy name) absolute floor of the dense comparison
+REL_DENSE = 1e-12     # dense contraction vs complex128 reference, relative to max(1, max|H|)
+REL_DRIVE = 1e-13     # drive slot entries (a + b - c + noise: a few float64 roundings), relative to the inputs
 
 
 # ---- running the real code ---------------------------------------------------------------------
@@ -197,13 +199,31 @@ def compare(case, factors, model, exact: bool):
         want = torch.zeros(dl, d, d, dr, dtype=torch.complex128)
         for (l, b, b2, r), (re_, im_, e) in ((x[0], x[1]) for x in (_split(t) for t in entries)):
             want[l, b, b2, r] = complex(re_ / 2 ** e, im_ / 2 ** e)
-        diff = (f.to(torch.complex128) - want).abs()
-        bad = diff > (0.0 if exact else TOL)
+        if f.dtype != torch.complex128:
+            return f"site {n}: factor dtype {f.dtype}, expected complex128"
+        diff = (f - want).abs()
+        # every entry outside the single-site drive slot is a coupling, 0, 1 or 0.5 copied/scaled by a power
+        # of two: it must agree BIT FOR BIT with the model's exact value, also for generic float64 couplings
+        tol = torch.zeros(dl, d, d, dr, dtype=torch.float64)
+        if not exact:
+            tol[0 if n == 0 else 1, :, :, 0] = REL_DRIVE * _drive_scale(case)
+        bad = diff > tol
         if bool(bad.any()):
             idx = [int(v) for v in bad.nonzero()[0]]
             return (f"site {n} entry {idx}: impl {complex(f[tuple(idx)])} model {complex(want[tuple(idx)])} "
                     f"({int(bad.sum())} entries differ)")
     return None
+
+
+def _drive_scale(case):
+    vals = [1.0] + [abs(float(x)) for x in case["omega"]] + [abs(float(x)) for x in case["delta"]]
+    vals += [abs(complex(*z)) for row in case["noise"] for z in row]
+    return max(vals)
+
+
+def _h_scale(case):
+    vals = [_drive_scale(case)] + [abs(float(x)) for row in case["U"] for x in row]
+    return max(vals)
 
 
 def _split(t):
@@ -343,6 +363,45 @@ def gen_seq_case(rng, N=None, dim=None):
     return c
 
 
+def gen_precision_case(rng, N=None):
+    """Generic (non-dyadic) float64 couplings of mixed sign over several decades, generic float drives,
+    phases and complex noise; make_H, then 2-4 in-place updates."""
+    N = N or rng.randint(2, 6)
+    dim = rng.choice((2, 3))
+    ht = rng.choice(("Ryd", "XY"))
+    ukind = rng.choice(("randn", "c6", "c3", "decades"))
+    U = [[0.0] * N for _ in range(N)]
+    pos = [(rng.uniform(0, 6.0 * N ** 0.5), rng.uniform(0, 6.0 * N ** 0.5)) for _ in range(N)]
+    for (i, j) in pairs(N):
+        if ukind == "randn":
+            v = rng.gauss(0.0, 1.0) * rng.choice([1.0, 7.3, 0.011])
+        elif ukind == "decades":
+            v = rng.choice([-1, 1]) * 10 ** rng.uniform(-4, 4)
+        else:
+            r = max(math.dist(pos[i], pos[j]), 3.7)
+            v = 5420158.53 / r ** 6 if ukind == "c6" else rng.choice([-1, 1]) * 3700.0 / r ** 3
+        if rng.random() < 0.25:
+            v = 0.0
+        U[i][j] = U[j][i] = v
+    pat = [[i, j] for (i, j) in pairs(N) if U[i][j] != 0.0]
+    fz = lambda: (rng.gauss(0, 1.3), rng.gauss(0, 0.7))
+    seq = []
+    for _ in range(rng.randint(2, 4)):
+        nk = rng.choice(("zero", "full", "full", "third"))
+        nz = [[(0.0, 0.0)] * dim for _ in range(dim)]
+        if nk == "full":
+            nz = [[fz() for _ in range(dim)] for _ in range(dim)]
+        elif nk == "third":
+            nz[dim - 1][dim - 1] = (0.0, -abs(rng.gauss(0, 1)) - 0.01)
+        seq.append({"omega": [rng.uniform(-12, 12) for _ in range(N)],
+                    "phi": [rng.uniform(-3.2, 3.2) for _ in range(N)],
+                    "delta": [rng.gauss(0, 9.0) for _ in range(N)], "noise": nz})
+    c = {"kind": "precision", "ukind": ukind, "N": N, "ht": ht, "dim": dim, "mode": "tol", "symmetric": True,
+         "pattern": pat, "U": U, "seq": seq, "noise_kinds": None}
+    c.update(seq[-1])
+    return c
+
+
 def corpus_cases():
     p = common.VERIF / "corpus" / "C05.json"
     return json.loads(p.read_text()) if p.exists() else []
@@ -368,15 +427,64 @@ def property_check(ctx, case):
         ctx.violation(f"make_H/update_H raised {type(ex).__name__}: {ex}",
                       {"case": case, "finding_key": "make_H-raises"})
         return False
+    why = verbatim_check(case, factors, updated=True)
+    if why:
+        ctx.violation(why, {"case": case, "finding_key": "mpo-coupling-lost-precision"})
+        return False
     want = dense_reference(case)
     err = float(np.abs(got - want).max())
-    if err > TOL:
+    lim = REL_DENSE * _h_scale(case)
+    if err > lim:
         k = int(np.abs(got - want).argmax())
         ctx.violation(
-            f"MPO Hamiltonian differs from the dense Hamiltonian (max |diff| = {err:.3g})",
-            {"case": case, "max_abs_diff": err, "flat_index": k, "finding_key": "mpo-ne-dense-" + case["ht"]})
+            f"MPO Hamiltonian differs from the dense Hamiltonian (max |diff| = {err:.3g}, allowed {lim:.3g})",
+            {"case": case, "max_abs_diff": err, "flat_index": k, "finding_key": _dense_key(case, err)})
         return False
     return True
+
+
+def _dense_key(case, err):
+    """A small relative discrepancy is lost precision, an O(1) one a wrong operator."""
+    return "mpo-coupling-lost-precision" if err < 1e-5 * _h_scale(case) else "mpo-ne-dense-" + case["ht"]
+
+
+def verbatim_check(case, factors, updated):
+    """The MPO stores couplings verbatim: outside the drive slot every real/imaginary part of every factor
+    entry is, bit for bit, one of 0, 1, 1/2, |U_ij| or 2|U_ij| of the float64 input, and every factor is
+    complex128 (dtype oracle; also the builder's private copy of U when the attribute exists)."""
+    torch = _torch()
+    import numpy as np
+
+    allowed = {0.0, 1.0, 0.5}
+    for row in case["U"]:
+        for x in row:
+            allowed.add(abs(float(x)))
+            allowed.add(2.0 * abs(float(x)))
+    arr = np.array(sorted(allowed), dtype=np.float64)
+    for n, f in enumerate(factors):
+        if f.dtype != torch.complex128:
+            return f"factor {n} has dtype {f.dtype}, expected complex128"
+        g = f.clone()
+        if updated:
+            g[0 if n == 0 else 1, :, :, 0] = 0
+        parts = np.abs(np.concatenate([g.real.numpy().ravel(), g.imag.numpy().ravel()]))
+        ok = np.isin(parts, arr)
+        if not ok.all():
+            v = float(parts[~ok][0])
+            near = float(arr[np.abs(arr - v).argmin()])
+            return (f"factor {n} holds {v!r}, which is none of 0, 1, 1/2, |U_ij|, 2|U_ij| of the float64 input "
+                    f"(nearest {near!r}, relative error {abs(v - near) / max(near, 1e-300):.3g}): a coupling was "
+                    f"not stored verbatim")
+    try:
+        from emu_mps import hamiltonian as hm
+        cls = hm.RydbergHamiltonianMPOFactors if case["ht"] == "Ryd" else hm.XYHamiltonianMPOFactors
+        b = cls(torch.tensor(case["U"], dtype=torch.float64), dim=case["dim"])
+        im = getattr(b, "interaction_matrix", None)
+    except Exception:
+        im = None  # fail closed only through the entry and dense comparisons
+    if im is not None and im.dtype != torch.float64:
+        return f"the builder's private copy of the float64 interaction matrix has dtype {im.dtype}"
+    return None
 
 
 def property_check_seq(ctx, case):
@@ -393,11 +501,16 @@ def property_check_seq(ctx, case):
     for k, factors in enumerate(snaps):
         sc = step_case(case, k)
         got = contract_dense(factors).numpy()
+        why = verbatim_check(sc, factors, updated=True)
+        if why:
+            ctx.violation(why, {"case": case, "failing_call": k, "finding_key": "mpo-coupling-lost-precision"})
+            return False
         err = float(np.abs(got - dense_reference(sc)).max())
-        if err > TOL:
+        lim = REL_DENSE * _h_scale(sc)
+        if err > lim:
             fresh = float(np.abs(contract_dense(impl_build(sc)).numpy() - dense_reference(sc)).max())
-            stale = k > 0 and fresh <= TOL
-            key = "update_H-leaves-stale-entries" if stale else "mpo-ne-dense-" + case["ht"]
+            stale = k > 0 and fresh <= lim
+            key = "update_H-leaves-stale-entries" if stale else _dense_key(sc, err)
             what = (f"after in-place update_H call #{k + 1} (noise kinds {case.get('noise_kinds')}) the MPO differs "
                     f"from the dense Hamiltonian of the drive just written, max |diff| = {err:.3g}"
                     + ("; the same drive on a fresh make_H is correct: entries of an earlier update survive"
@@ -419,6 +532,7 @@ def run(ctx):
     rng = ctx.rng
     seq_cases = [gen_seq_case(rng, N=2 + k % 5, dim=3 if k % 3 else 2) for k in range(ctx.n(60, 600))]
     cases += seq_cases
+    cases += [gen_precision_case(rng, N=2 + k % 5) for k in range(ctx.n(50, 500))]
     # a previous drive for a third of the cases: update_H twice must equal the last update
     for c in cases:
         if c.get("symmetric", True) and rng.random() < 0.33 and "first_drive" not in c and "seq" not in c:
@@ -445,6 +559,9 @@ def run(ctx):
                     for j in range(len(c["seq"])):
                         plan.append((k, ("seq", j)))
                         ev.add(model_expr(step_case(c, j), True))
+                    if c["kind"] == "precision":  # also straight after make_H: every coupling bit for bit
+                        plan.append((k, False))
+                        ev.add(model_expr(c, False))
                     continue
                 plan.append((k, True))
                 ev.add(model_expr(c, True))
@@ -491,7 +608,11 @@ def run(ctx):
                 "integer drive with phi=0 (exact) or generic drive (tol 1e-9), Gaussian-integer noise block; "
                 "plus sequences of 3-5 in-place update_H calls on the SAME MPO (N=2..6, dim 2/3, noise kinds "
                 "zero/full/third-level-only/diagonal with a zero noise after a non-zero one, all-zero drives), "
-                "compared entry-by-entry and densely after EVERY call; "
+                "compared entry-by-entry and densely after EVERY call; plus a precision stream (generic float64 "
+                "couplings: randn, C6/r^6, C3/r^3 from random positions, +-10^[-4,4]; generic float drives/noise; "
+                "after make_H and after every update of a sequence). In ALL streams every entry outside the drive "
+                "slot must equal the model's exact value bit for bit, drive-slot entries within 1e-13 relative, the "
+                "dense contraction within 1e-12 relative to max(1,|inputs|), factors must be complex128; "
                 "a case is non-trivial when at least one pair interacts; distinct by input hash")
     ctx.trusted_base += ["hand-written model coq/Model/MpoHam.v (validated entry-by-entry by this correspondence)",
                          "float64 arithmetic on small integers / dyadics is exact (exact mode)"]
